@@ -925,7 +925,20 @@ class _ExprMixin:
         if isinstance(idx, Op) and idx.op == "sliceobj":
             return self.getslice(base, idx.args[0], idx.args[1], idx.args[2], node)
         if isinstance(base, Ite):
+            if any(isinstance(x, Const) and x.v is None for x in (base.a, base.b)):
+                # one alternative is None: subscripting it raises TypeError on that path
+                self.guard.append(base.c)
+                a = self.getitem(base.a, idx, node) if self.feasible() else Undef()
+                self.guard.pop()
+                self.guard.append(not_(base.c))
+                b = self.getitem(base.b, idx, node) if self.feasible() else Undef()
+                self.guard.pop()
+                return ite(base.c, a, b)
             return ite(base.c, self.getitem(base.a, idx, node), self.getitem(base.b, idx, node))
+        if isinstance(base, Const) and base.v is None:
+            self.event("raise", (Op("call:TypeError", Const("'NoneType' object is not subscriptable")),), node)
+            self.note_raise(self.local_guard(state=True))
+            return Undef()
         if isinstance(base, Const) and isinstance(idx, Const):
             if base.v is None:
                 return Undef()
